@@ -82,6 +82,11 @@ CHECKS = {
          "Every stream of length 3..5 (6) over per-pixel alphabets placing the scene mean below/inside/above [min,max], interiors of 1, 2 and 4 pixels (edge 0,1,2), <=1 FFC period and <=1 reset at any position, (min,max) unset/set in all four combinations, preview frames 0..2: background <= frame, border replication, re-seed after FFC/reset, threshold unchanged or the bounded mean, stored background/threshold equal the ones in force at the trigger.",
          "Deep layer reads detector.background/tempThresh by name (API layer via StartRecording arguments needs no private access).",
          "DESIGN.md §4 C15"),
+ "C10": ("C-crash-point-enumerator",
+         "exhaustive crash-point / torn-write enumeration of short recording histories on the real CPTVFileRecorder + go-cptv writer (os->vos import-rewrite overlay), directory oracle at every operation boundary and after the real start-up clean-up",
+         "For each of five recording histories (single, back-to-back, discarded on connection loss, motion+test interleaved, motion+continuous) and frame sizes 8x6 (and 160x120 thorough): one run with a concurrent-observer decode of every *.cptv at EVERY file-system operation boundary, then one run per crash point (kill before operation k, k=1..N) and per torn write, each followed by the real deleteTempFiles; only complete, content-exact recordings may bear .cptv and nothing else may remain.",
+         "Process-kill semantics (completed operations persist, user-space buffers lost); power loss / fsync ordering is not modelled (C10 does not claim it). The shim is swapped in by rewriting the `os`/`time` imports of copies of cptvfilerecorder.go and go-cptv's writer.go/filewriter.go at check time.",
+         "DESIGN.md §4 C10"),
 }
 NOT_BUILT = "check not built yet (work in progress)"
 
@@ -117,6 +122,8 @@ def main():
         "engines": [
             {"name": "A-sequential-explorer", "path": "kit/ev, kit/canon, harness/checks", "serves_properties": sorted(i for i in CHECKS if CHECKS[i][0].startswith("A")),
              "kind_free_text": "stateless exhaustive enumeration of operation/event/environment-answer sequences on fresh real objects + explicit-state BFS on reflection-derived canonical keys"},
+            {"name": "C-crash-point-enumerator", "path": "kit/vos, kit/vtime, bin/overlay.sh, harness/overlay/thermal-recorder", "serves_properties": sorted(i for i in CHECKS if CHECKS[i][0].startswith("C-")),
+             "kind_free_text": "file-system operation numbering shim swapped in by import-rewrite overlay; every operation boundary is an observation point and a crash point"},
         ],
         "checks": checks,
         "notes": "All checks run the real code of /repo's working tree; see DESIGN.md. KNOWN_FINDINGS.jsonl lists recorded genuine defects.",
